@@ -388,6 +388,73 @@ def r2_fresh(program, rep, B, folder):
     r2_seq_numbers(program, rep, folder)
 
 
+def _seq_induction(fn, var, mask):
+    """-> (proved, why not).  The counter ``var`` of seqs() starts at a
+    constant and is updated by one assignment whose value is a conditional
+    expression on a comparison of var and mask; 0 <= var <= mask is shown
+    inductive.  Any other form: AnalysisError."""
+    I, Mk = Poly.atom(var), Poly.atom(mask)
+
+    def pol(e):
+        if isinstance(e, ast.Constant) and isinstance(e.value, int) and \
+                not isinstance(e.value, bool):
+            return Poly.const(e.value)
+        if isinstance(e, ast.Name) and e.id == var:
+            return I
+        if isinstance(e, ast.Name) and e.id == mask:
+            return Mk
+        if isinstance(e, ast.BinOp) and isinstance(e.op, (ast.Add, ast.Sub)):
+            l_, r_ = pol(e.left), pol(e.right)
+            return l_ + r_ if isinstance(e.op, ast.Add) else l_ - r_
+        raise AnalysisError("seqs(): '%s' is not a form the range proof "
+                            "reads" % unparse(e)[:40])
+    binds = [n for n in ast.walk(fn) if isinstance(n, (ast.Assign,
+                                                        ast.AugAssign))
+             and any(isinstance(x, ast.Name) and x.id == var and
+                     isinstance(x.ctx, ast.Store) for x in ast.walk(n))]
+    inits = [b_ for b_ in binds if isinstance(b_, ast.Assign) and
+             isinstance(b_.value, ast.Constant)]
+    steps = [b_ for b_ in binds if b_ not in inits]
+    if len(inits) != 1 or len(steps) != 1 or not (
+            isinstance(steps[0], ast.Assign) and
+            isinstance(steps[0].value, ast.IfExp) and
+            isinstance(steps[0].value.test, ast.Compare) and
+            len(steps[0].value.test.ops) == 1):
+        raise AnalysisError("seqs(): the counter is not started at a "
+                            "constant and advanced by one conditional "
+                            "expression; that form is not analysed")
+    inv = [le(0, I), le(I, Mk), le(0, Mk)]
+    i0 = pol(inits[0].value)
+    if not entails([le(0, Mk)], [le(0, i0), le(i0, Mk)]):
+        return False, "it starts at %s" % unparse(inits[0].value)
+    t = steps[0].value
+    l_, r_ = pol(t.test.left), pol(t.test.comparators[0])
+    op = type(t.test.ops[0]).__name__
+    table = {"Lt": ([lt(l_, r_)], [le(r_, l_)]),
+             "LtE": ([le(l_, r_)], [lt(r_, l_)]),
+             "Gt": ([lt(r_, l_)], [le(l_, r_)]),
+             "GtE": ([le(r_, l_)], [lt(l_, r_)])}
+    if op in ("Eq", "NotEq") and {repr(l_), repr(r_)} == {repr(I),
+                                                          repr(Mk)}:
+        # var == mask / var != mask, with var <= mask: below it otherwise
+        yes, no = [le(I, Mk), le(Mk, I)], [lt(I, Mk)]
+        if op == "NotEq":
+            yes, no = no, yes
+    elif op in table:
+        yes, no = table[op]
+    else:
+        raise AnalysisError("seqs(): the wrap test is not a comparison this "
+                            "rule reads")
+    for cond, e in ((yes, t.body), (no, t.orelse)):
+        v = pol(e)
+        if not entails(inv + cond, [le(0, v), le(v, Mk)]):
+            return False, "from a counter in 0..mask the update '%s' " \
+                "gives %s on the branch where (%s) is %s" % (
+                    unparse(steps[0])[:50], unparse(e), unparse(t.test),
+                    "true" if cond is yes else "false")
+    return True, ""
+
+
 def r2_seq_numbers(program, rep, folder):
     """seqs(): what is yielded is 0 or something ANDed with the mask as the
     last operation, and the mask is, by default, the 16 bits of the wire
@@ -430,6 +497,22 @@ def r2_seq_numbers(program, rep, folder):
                 late.append(y)
             else:
                 okm = False
+    if not okm and not late:
+        # not masked at all (``i = 0 if i >= mask else i + 1``): the range
+        # 0..mask by induction over the one conditional update, for any
+        # mask >= 0 (linear integer arithmetic: a failed entailment has a
+        # model, i.e. a value of the counter for which the next one leaves
+        # the range)
+        okm, why_ = _seq_induction(seqs, ys[0].value.id, M[1])
+        if not okm:
+            rep.check(False, "C06-R2", qual(seqs), "every number yielded "
+                      "lies in 0..mask", construct="seq range",
+                      node=seqs, positive=True,
+                      fail="seqs() can yield a number outside 0..mask: %s - "
+                           "a number above 0xffff does not fit the 16-bit "
+                           "field (struct.error on a healthy machine)"
+                           % why_)
+            okm = True      # (reported above; the default is checked below)
     if n == 0:
         raise AnalysisError("seqs(): the counter is never bound")
     rep.check(not late, "C06-R2", qual(seqs), "the mask is the last "
